@@ -182,7 +182,9 @@ def _child_xml(c, out, ind):
         a.append(("name", c["name"]))
         if c.get("attribute"):
             a.append(("attribute", c["attribute"]))
-        if c.get("datatype") and c["datatype"] != "string":
+        if c.get("raw_datatype"):
+            a.append(("datatype", c["raw_datatype"]))
+        elif c.get("datatype") and c["datatype"] != "string":
             a.append(("datatype", DT_DOTTED.get(c["datatype"],
                                                 c["datatype"])))
         elif c.get("datatype") == "string" and c.get("explicit_dt"):
@@ -227,26 +229,19 @@ def _child_xml(c, out, ind):
             out.append("%s<%s%s/>" % (ind, c["kind"], attrs))
 
 
-def render_xml(model):
-    out = []
-    a = []
-    if model.get("keytype") and model["keytype"] != "basic-key":
-        a.append(("keytype", model["keytype"]))
-    if model.get("datatype"):
-        a.append(("datatype", DT_DOTTED[model["datatype"]]))
-    if model.get("handler"):
-        a.append(("handler", model["handler"]))
-    out.append("<schema%s>" % "".join(" %s=%s" % (k, quoteattr(v))
-                                      for k, v in a))
-    for t in model["types"]:
+def render_types(types, out, skip_abstract=False):
+    for t in types:
         if t["kind"] == "abstract":
-            out.append("  <abstracttype name=%s/>" % quoteattr(t["name"]))
+            if not skip_abstract:
+                out.append("  <abstracttype name=%s/>" % quoteattr(t["name"]))
             continue
         a = [("name", t["name"])]
-        for k in ("extends", "implements", "keytype"):
+        for k in ("extends", "implements", "keytype", "prefix"):
             if t.get(k):
                 a.append((k, t[k]))
-        if t.get("datatype"):
+        if t.get("raw_datatype"):
+            a.append(("datatype", t["raw_datatype"]))
+        elif t.get("datatype"):
             a.append(("datatype", DT_DOTTED[t["datatype"]]))
         a = _extra(a, t)
         out.append("  <sectiontype%s>" % "".join(
@@ -256,6 +251,35 @@ def render_xml(model):
         if t.get("inner_xml"):
             out.append("    " + t["inner_xml"])
         out.append("  </sectiontype>")
+
+
+def render_xml(model, abstract_import=None, head_xml=None):
+    """*abstract_import*: (package, file) - the abstract types are not
+    written out but imported from that component file."""
+    out = []
+    a = []
+    if model.get("keytype") and model["keytype"] != "basic-key":
+        a.append(("keytype", model["keytype"]))
+    if model.get("raw_datatype"):
+        a.append(("datatype", model["raw_datatype"]))
+    elif model.get("datatype"):
+        a.append(("datatype", DT_DOTTED[model["datatype"]]))
+    if model.get("handler"):
+        a.append(("handler", model["handler"]))
+    if model.get("prefix"):
+        a.append(("prefix", model["prefix"]))
+    if model.get("extends_attr"):
+        a.append(("extends", model["extends_attr"]))
+    a = _extra(a, model)
+    out.append("<schema%s>" % "".join(" %s=%s" % (k, quoteattr(v))
+                                      for k, v in a))
+    if abstract_import:
+        out.append("  <import package=%s file=%s/>"
+                   % (quoteattr(abstract_import[0]),
+                      quoteattr(abstract_import[1])))
+    if head_xml:
+        out.append("  " + head_xml)
+    render_types(model["types"], out, skip_abstract=bool(abstract_import))
     for c in model["children"]:
         _child_xml(c, out, "  ")
     if model.get("inner_xml"):
